@@ -251,8 +251,11 @@ for _n, _f in _DEPTH:
           stubs=[CUT_SYNTAX, M_WS, CUT_PIT, CUT_FIX], cost=10))
 add(
     H("u_root_value_lossy_positions", "main", ["C20"], ["Deserializer::deserialize_value (utf8_lossy branch)", "serde::de::lossy_offset_in_origin", "Parser::error", "Read::{eat,set_index,index}"],
+      "input `\"` ff `\"` (one invalid byte, copy of 5 bytes) x every end offset 1..8 / every error offset 1..5 the DOM parser may report in the copy",
+      stubs=[CUT_SYNTAX, "model: String::from_utf8_lossy -> the repaired copy of this input (concrete)", "cut: Value::parse_with_padding -> arbitrary Ok(end) / Err(offset) in the repaired copy", "cut: Value::parse_without_padding (not reached)"], cost=200, mem_gb=16, exp_gb=6),
+    H("u_root_value_lossy_positions_two", "main", ["C20"], ["Deserializer::deserialize_value (utf8_lossy branch)", "serde::de::lossy_offset_in_origin", "Parser::error", "Read::{eat,set_index,index}"],
       "input `\"` ff e2 82 `\"` (two invalid sequences, copy of 8 bytes) x every end offset 1..11 / every error offset 1..8 the DOM parser may report in the copy",
-      stubs=[CUT_SYNTAX, "model: String::from_utf8_lossy -> the repaired copy of this input (concrete)", "cut: Value::parse_with_padding -> arbitrary Ok(end) / Err(offset) in the repaired copy", "cut: Value::parse_without_padding (not reached)"], cost=350, mem_gb=16, exp_gb=9),
+      stubs=[CUT_SYNTAX, "model: String::from_utf8_lossy -> the repaired copy of this input (concrete)", "cut: Value::parse_with_padding -> arbitrary Ok(end) / Err(offset) in the repaired copy", "cut: Value::parse_without_padding (not reached)"], tier=T, cost=350, mem_gb=16, exp_gb=9),
     H("u_root_value_padding_overrun", "main", ["C02", "C01", "C20"], ["Deserializer::deserialize_value (root Value through the padded DOM parser)", "Parser::error", "Read::{eat,set_index,index}"],
       "input `\"abc`; the DOM parser's reported end offset arbitrary in 1..=len+3 (the parser itself is cut)", stubs=[CUT_SYNTAX, "cut: Value::parse_with_padding -> Ok(arbitrary end offset), value untouched"], cost=20),
     H("m_seq_next_element_n6", "main", ["C02"], ["SeqAccess::next_element_seed", "Deserializer::end_seq", "deserialize_ignored_any"],
